@@ -253,3 +253,136 @@ func init() {
 		},
 	})
 }
+
+// ---- C07-d: sender order ----
+
+func init() {
+	register(&Rule{
+		ID: "C07-d", Template: "T2 never-follows (queue order)",
+		Doc: "The sender queues objects in an order the receiver accepts: objects are appended (PushBack) to the FIFO queue; in the function that queues a table no block is queued after the table object; in the function that queues a commit nothing that queues a table (or a block) can follow the commit object.",
+		Min: 2,
+		Run: func(p *Program, r *RuleResult) error {
+			typeField, err := p.Field("pkg/api/utils.object.Type")
+			if err != nil {
+				return err
+			}
+			objT, err := p.NamedType("pkg/api/utils.object")
+			if err != nil {
+				return err
+			}
+			pf, err := p.TypesPkg("pkg/encoding/packfile")
+			if err != nil {
+				return err
+			}
+			kindOf := map[int64]string{}
+			for _, n := range []string{"ObjectCommit", "ObjectTable", "ObjectBlock"} {
+				c, ok := pf.Scope().Lookup(n).(*types.Const)
+				if !ok {
+					return &AnchorError{"packfile." + n}
+				}
+				v, _ := constInt(ssa.NewConst(c.Val(), c.Type()))
+				kindOf[v] = n
+			}
+			fns := p.FuncsInPkg("pkg/api/utils")
+			r.Analysed = len(fns)
+			type push struct {
+				c    ssa.CallInstruction
+				kind string
+			}
+			pushes := map[*ssa.Function][]push{}
+			for _, fn := range fns {
+				eachCall(fn, func(ci ssa.CallInstruction) {
+					f := calleeFunc(ci)
+					if f == nil || f.Pkg() == nil || f.Pkg().Path() != "container/list" {
+						return
+					}
+					if f.Name() != "PushBack" && f.Name() != "PushFront" && f.Name() != "InsertBefore" && f.Name() != "InsertAfter" {
+						return
+					}
+					args := ci.Common().Args
+					v := stripConv(args[len(args)-1])
+					if f.Name() == "InsertBefore" || f.Name() == "InsertAfter" {
+						v = stripConv(args[1])
+					}
+					u, ok := v.(*ssa.UnOp)
+					if !ok || !types.Identical(u.Type(), objT) {
+						if !types.Identical(v.Type(), objT) {
+							return
+						}
+					}
+					kind := "?"
+					if ok {
+						if al, isAl := u.X.(*ssa.Alloc); isAl {
+							for _, ref := range *al.Referrers() {
+								if fa, isFA := ref.(*ssa.FieldAddr); isFA && structField(fa.X.Type(), fa.Field) == typeField {
+									for _, r2 := range *fa.Referrers() {
+										if st, isSt := r2.(*ssa.Store); isSt {
+											if k, isC := constInt(st.Val); isC {
+												kind = kindOf[k]
+											}
+										}
+									}
+								}
+							}
+						}
+					}
+					if f.Name() != "PushBack" {
+						r.bad(callKey(fn, ci), p.Rel(ci.Pos()), "objects are appended to the send queue", "an object is queued with "+f.Name()+": the FIFO order blocks → table → commit is no longer what the receiver sees")
+						return
+					}
+					pushes[fn] = append(pushes[fn], push{ci, kind})
+				})
+			}
+			// functions that queue a table (directly)
+			tableQueuers := map[*ssa.Function]bool{}
+			for fn, ps := range pushes {
+				for _, x := range ps {
+					if x.kind == "ObjectTable" {
+						tableQueuers[fn] = true
+					}
+				}
+			}
+			for _, fn := range fns {
+				ps := pushes[fn]
+				for _, x := range ps {
+					switch x.kind {
+					case "?":
+						r.bad(callKey(fn, x.c), p.Rel(x.c.Pos()), "queued object has a constant type", "cannot determine the packfile object type of the queued value")
+					case "ObjectTable":
+						var blocks []ssa.CallInstruction
+						for _, y := range ps {
+							if y.kind == "ObjectBlock" {
+								blocks = append(blocks, y.c)
+							}
+						}
+						what := "no block is queued after its table"
+						if ok, w := neverFollows(p, fn, []ssa.CallInstruction{x.c}, blocks); ok {
+							r.ok(callKey(fn, x.c)+"|table", p.Rel(x.c.Pos()), what)
+						} else {
+							r.bad(callKey(fn, x.c)+"|table", p.Rel(x.c.Pos()), what, w)
+						}
+					case "ObjectCommit":
+						var later []ssa.CallInstruction
+						for _, y := range ps {
+							if y.kind == "ObjectBlock" || y.kind == "ObjectTable" {
+								later = append(later, y.c)
+							}
+						}
+						eachCall(fn, func(ci ssa.CallInstruction) {
+							if sc := ci.Common().StaticCallee(); sc != nil && tableQueuers[sc] {
+								later = append(later, ci)
+							}
+						})
+						what := "the commit object is queued after its table (and the table's blocks)"
+						if ok, w := neverFollows(p, fn, []ssa.CallInstruction{x.c}, later); ok {
+							r.ok(callKey(fn, x.c)+"|commit", p.Rel(x.c.Pos()), what)
+						} else {
+							r.bad(callKey(fn, x.c)+"|commit", p.Rel(x.c.Pos()), what, w)
+						}
+					}
+				}
+			}
+			return nil
+		},
+	})
+}
